@@ -391,6 +391,41 @@ func (s *backendSuite) runOp(ctx context.Context, b backend.Backend, t []string)
 			ks[i] = hx(k)
 		}
 		return "parts " + strings.Join(ks, ",")
+	case "streamadv":
+		// streamadv <key> <end> <rev>: what a partition-parallel client does - ask for the partitions, then stream every
+		// ADVERTISED piece [p_i, p_i+1) in the advertised order - as one answer: the pieces' kvs (sorted inside a piece,
+		// pieces in advertised order) and the number of pieces that ended with an error
+		resp, err := b.GetPartitions(ctx, &proto.ListPartitionRequest{Key: unhx(pos[1]), End: unhx(pos[2])})
+		if err != nil {
+			return "streamadv err " + classify(err)
+		}
+		var all []string
+		errs := 0
+		for i := 0; i+1 < len(resp.PartitionKeys); i++ {
+			ch, err := b.ListByStream(ctx, resp.PartitionKeys[i], resp.PartitionKeys[i+1], atou(pos[3]))
+			if err != nil {
+				errs++
+				continue
+			}
+			var piece []string
+			for m := range ch {
+				if m.Err != "" {
+					errs++
+				}
+				if m.RangeResponse != nil {
+					for _, kv := range m.RangeResponse.Kvs {
+						piece = append(piece, kvStr(kv))
+					}
+				}
+			}
+			sort.Strings(piece)
+			all = append(all, piece...)
+		}
+		out := strings.Join(all, ",")
+		if out == "" {
+			out = "-"
+		}
+		return fmt.Sprintf("streamadv pieces=%d errs=%d %s", len(resp.PartitionKeys)-1, errs, out)
 	case "stream":
 		ch, err := b.ListByStream(ctx, unhx(pos[1]), unhx(pos[2]), atou(pos[3]))
 		if err != nil {
@@ -455,7 +490,7 @@ func (s *backendSuite) do(t []string) string {
 		res := s.runOp(ctx, s.b, t)
 		s.setFaults(nil) // a directive no commit of this request consumed does not leak into later ops
 		return res
-	case "get", "list", "count", "compact", "parts", "stream":
+	case "get", "list", "count", "compact", "parts", "stream", "streamadv":
 		s.setFaults(nil)
 		return s.runOp(ctx, s.b, t)
 	case "echo":
